@@ -312,10 +312,19 @@ OpReset ==
     /\ Step(BReset(st), DoReset(gw), <<>>,
             Entry("Reset", 0, {}, {}, EmptyFn, EmptyFn, 1, 0, NoFlt, "val"))
 
+\* the world is replaced by the one its own dump is loaded into: a fresh world, or the same world after Reset
+OpLoad ==
+    /\ "Load" \in OpKinds /\ Room /\ ~Locked(gw) /\ Len(st.pool) > 0
+    /\ \E mode \in {"fresh", "reset"} :
+         LET d == BDump(st)
+             base == IF mode = "fresh" THEN InitStorage ELSE BReset(st) IN
+         Step(BLoad(base, d), DoLoad(gw), ords,
+              Entry("Load", 0, {}, {}, EmptyFn, EmptyFn, 1, 0, NoFlt, mode))
+
 Next == \/ OpNew \/ OpNewNoInit \/ OpNewBatch \/ OpCopy \/ OpAdd \/ OpAddNoInit \/ OpRemove \/ OpExchange \/ OpSet \/ OpSetRel \/ OpKill
         \/ OpAddBatch \/ OpExchangeBatch \/ OpRemoveBatch \/ OpSetRelBatch \/ OpKillBatch
         \/ OpRegF \/ OpUnregF \/ OpShrink \/ OpReset \/ OpQOpen \/ OpQNext \/ OpQClose
-        \/ OpRegO \/ OpUnregO \/ OpEmit \/ OpDumpLoad
+        \/ OpRegO \/ OpUnregO \/ OpEmit \/ OpDumpLoad \/ OpLoad
 
 Spec == Init /\ [][Next]_vars
 
